@@ -339,7 +339,7 @@ Fixpoint ia_level {R} (fuel : nat) (s : TL) (key : Z) (new : ptr) (h l : nat) (p
               find_position fuel s key false new ps (fun s' o =>
                 match o with
                 | FpFound ps' => ia_level f s' key new h l succ ps' knext kdone kf
-                | FpNotFound ps' | FpOwnRemoved =>
+                | _ =>
                     Act (a_fas_unl new (Z.of_nat (h - l))) (fun _ =>
                       find_position fuel s' key false null ps (fun s'' _ => kdone s'') kf)
                 end) kf))
@@ -412,14 +412,15 @@ Definition try_remove_at {R} (fuel : nat) (s : TL) (del : ptr) (h : nat) (ps : p
 Definition empty_pos (slots : list nat) : pos := mkPos (fun _ => null) (fun _ => null) null slots.
 
 Definition zl (l : list Z) : list Z := l.
-Definition ev_inv (code k : Z) : list ev := [EvCli "inv" [code; k]].
-Definition ev_res (a b : Z) : list ev := [EvCli "res" [a; b]].
+Definition ev_inv (code k : Z) : list ev := [EvCli "inv"%string [code; k]].
+Definition ev_res (a b : Z) : list ev := [EvCli "res"%string [a; b]].
 
 Definition finish {R} (s : TL) (a b : Z) (k : TL -> prog R) : prog R := Emit (ev_res a b) (k s).
-Definition out_of_fuel {R} (s : TL) (k : TL -> prog R) : prog R := Emit [EvCli "outoffuel" []] (k s).
+Definition out_of_fuel {R} (s : TL) (k : TL -> prog R) : prog R := Emit [EvCli "outoffuel"%string []] (k s).
 
-(** height of a node as its owner knows it *)
-Definition a_ld_nothing : G -> G * V * list ev := fun g => (g, VU, []).
+(** a guard store whose step also reads the (immutable, non-atomic) height of the node being guarded *)
+Definition a_guard_st_h (t slot : nat) (p : ptr) : G -> G * V * list ev :=
+  fun g => (g, VZ (Z.of_nat (hgt_of g p)), [EvAcc KSt (o_guard t slot) true]).
 
 (** insert( val ): the item is constructed by the client just before (node constructor: m_nUnlink.store( 1 )) *)
 Fixpoint insert_loop {R} (fuel : nat) (s : TL) (key : Z) (new : ptr) (h : nat) (tower : bool) (ps : pos)
@@ -462,8 +463,181 @@ Definition op_erase {R} (fuel : nat) (s : TL) (k : nat) (cont : TL -> prog R) : 
     | FpFound ps =>
         let del := pcur ps in
         let (gdel, s3) := alloc1 s2 in
-        g_assign s3 gdel
-          (Act a_ld_nothing (fun _ => Ret tt) ;; Ret tt) ;;
-        Ret tt
+        Act (a_guard_st_h (tid s3) gdel del) (fun vh =>
+          Act (a_sync (tid s3)) (fun _ =>
+            try_remove_at fuel s3 del (Z.to_nat (vz vh)) ps (fun s4 ok =>
+              let fin (b : Z) : prog R := g_clear s4 gdel (g_free_all (free1 gdel s4) slots (fun s' => finish s' b 0 cont)) in
+              if ok then Act a_fas_cnt (fun _ => fin 1) else fin 0) kf))
     | _ => g_free_all s2 slots (fun s' => finish s' 0 0 cont)
     end) kf.
+
+(** find_with_ = find_fastpath (+ find_slowpath when it aborts) *)
+Inductive ff_out := FFound | FNotFound | FAbort | FAgain.
+
+Fixpoint ff_level {R} (fuel : nat) (s : TL) (key : Z) (g0 g1 : nat) (lvl : nat) (pred : ptr) (cur : mptr)
+  (k : ff_out -> ptr -> prog R) (kf : prog R) {struct fuel} : prog R :=
+  (* while ( pCur != pNull ); [k o pred]: FNotFound here means "go down one level from pred" *)
+  match fuel with
+  | O => kf
+  | S f =>
+      if Nat.eqb (fst cur) null && negb (snd cur) then k FNotFound pred
+      else if snd cur then k FAgain pred
+      else
+        let c := cmpk (fst cur) key in
+        if c <? 0 then
+          g_copy s g0 g1 (g_protect fuel s g1 (fst cur) lvl (fun r =>
+            match r with None => kf | Some nx => ff_level f s key g0 g1 lvl (fst cur) nx k kf end))
+        else if c =? 0 then
+          Act (a_ld_next (fst cur) 0) (fun v => if snd (vp v) then k FAbort pred else k FFound pred)
+        else k FNotFound pred
+  end.
+
+Fixpoint ff_levels {R} (fuel : nat) (n : nat) (s : TL) (key : Z) (g0 g1 : nat) (pred : ptr)
+  (k : ff_out -> prog R) (kf : prog R) {struct n} : prog R :=
+  match n with
+  | O => k FNotFound
+  | S lvl =>
+      g_protect fuel s g1 pred lvl (fun r =>
+        match r with
+        | None => kf
+        | Some cur =>
+            ff_level fuel s key g0 g1 lvl pred cur (fun o pred' =>
+              match o with
+              | FNotFound => ff_levels fuel lvl s key g0 g1 pred' k kf
+              | _ => k o
+              end) kf
+        end)
+  end.
+
+Fixpoint find_fastpath {R} (fuel : nat) (s : TL) (key : Z) (g0 g1 : nat) (attempt : nat) (k : ff_out -> prog R) (kf : prog R) {struct fuel} : prog R :=
+  match fuel with
+  | O => kf
+  | S f =>
+      Act a_ld_hgt (fun vh =>
+        ff_levels fuel (Z.to_nat (vz vh)) s key g0 g1 head (fun o =>
+          match o with
+          | FAgain => if Nat.ltb (S attempt) 4 then find_fastpath f s key g0 g1 (S attempt) k kf else k FAbort
+          | _ => k o
+          end) kf)
+  end.
+
+Definition op_contains {R} (fuel : nat) (s : TL) (k : nat) (cont : TL -> prog R) : prog R :=
+  let (gs, s1) := allocn 2 s in
+  let g0 := nth 0 gs 97%nat in let g1 := nth 1 gs 97%nat in
+  find_fastpath fuel s1 (Z.of_nat k) g0 g1 0 (fun o =>
+    g_free_all s1 gs (fun s2 =>
+      match o with
+      | FFound => finish s2 1 0 cont
+      | FNotFound | FAgain => finish s2 0 0 cont
+      | FAbort =>
+          let (slots, s3) := allocn (2 * MAXH) s2 in
+          find_position fuel s3 (Z.of_nat k) true null (empty_pos slots) (fun s4 o' =>
+            g_free_all s4 slots (fun s5 => match o' with FpFound _ => finish s5 1 0 cont | _ => finish s5 0 0 cont end))
+            (g_free_all s3 slots (fun s5 => out_of_fuel s5 cont))
+      end))
+    (g_free_all s1 gs (fun s2 => out_of_fuel s2 cont)).
+
+(** extract_min_ / extract_max_: the guarded_ptr's guard is allocated at the first reset() and released by the client
+    after it read the key *)
+Fixpoint extract_loop {R} (fuel : nat) (mx : bool) (s : TL) (gp : option nat) (ps : pos)
+  (k : TL -> option nat -> option ptr -> prog R) (kf : TL -> option nat -> prog R) {struct fuel} : prog R :=
+  match fuel with
+  | O => kf s gp
+  | S f =>
+      (if mx then find_max_position fuel s ps else find_min_position fuel s ps) (fun s1 ps1 =>
+        if Nat.eqb (pcur ps1) null then k s1 gp None
+        else
+          let del := pcur ps1 in
+          let (g, s2) := match gp with Some g => (g, s1) | None => alloc1 s1 end in
+          Act (a_guard_st_h (tid s2) g del) (fun vh =>
+            try_remove_at fuel s2 del (Z.to_nat (vz vh)) ps1 (fun s3 ok =>
+              if ok then Act a_fas_cnt (fun _ => k s3 (Some g) (Some del))
+              else extract_loop f mx s3 (Some g) ps1 k kf) (kf s2 (Some g)))) (kf s gp)
+  end.
+
+Definition op_extract {R} (fuel : nat) (mx : bool) (s : TL) (cont : TL -> prog R) : prog R :=
+  let (slots, s1) := allocn (2 * MAXH) s in
+  let release (s' : TL) (gp : option nat) (k : TL -> prog R) : prog R :=
+    match gp with Some g => g_clear s' g (k (free1 g s')) | None => k s' end in
+  extract_loop fuel mx s1 None (empty_pos slots)
+    (fun s2 gp r =>
+       g_free_all s2 slots (fun s3 =>
+         release s3 gp (fun s4 => match r with Some del => finish s4 1 (key_of del) cont | None => finish s4 0 0 cont end)))
+    (fun s2 gp => g_free_all s2 slots (fun s3 => release s3 gp (fun s4 => out_of_fuel s4 cont))).
+
+(** *** client programs *)
+Inductive op := OIns (k h : nat) | OErase (k : nat) | OContains (k : nat) | OExtMin | OExtMax.
+
+Definition run_op {R} (fuel : nat) (s : TL) (o : op) (cont : TL -> prog R) : prog R :=
+  match o with
+  | OIns k h => Emit (ev_inv 1 (Z.of_nat k)) (op_insert fuel s k h cont)
+  | OErase k => Emit (ev_inv 6 (Z.of_nat k)) (op_erase fuel s k cont)
+  | OContains k => Emit (ev_inv 10 (Z.of_nat k)) (op_contains fuel s k cont)
+  | OExtMin => Emit (ev_inv 13 0) (op_extract fuel false s cont)
+  | OExtMax => Emit (ev_inv 14 0) (op_extract fuel true s cont)
+  end.
+
+Fixpoint run_ops (fuel : nat) (s : TL) (os : list op) : prog unit :=
+  match os with
+  | [] => Ret tt
+  | o :: r => run_op fuel s o (fun s' => run_ops fuel s' r)
+  end.
+
+Definition NSLOTS : nat := 16.
+Definition thread_prog (fuel : nat) (t : nat) (os : list op) : Conc.thread G V ev :=
+  Act a_begin (fun _ => run_ops fuel (mkTL t (seq 0 NSLOTS) 0) os).
+
+(** *** initial state: the keys of [mask] linked with the given tower heights (done by the main thread, sequentially) *)
+Definition pre_node (k : nat) : ptr := mk_node (60 + k) k.
+Definition g_empty : G := mkG (fun _ _ => (null, false)) (fun _ => 0) (fun _ => 1%nat) 5 0.
+
+(** link the prefilled nodes in increasing key order: at level l the successor of a node is the next prefilled node of
+    height > l *)
+Fixpoint next_at (l : nat) (nodes : list (nat * nat)) : ptr :=
+  match nodes with
+  | [] => null
+  | (k, h) :: r => if Nat.ltb l h then pre_node k else next_at l r
+  end.
+Fixpoint link_all (nodes : list (nat * nat)) (g : G) : G :=
+  match nodes with
+  | [] => g
+  | (k, h) :: r =>
+      let g1 := link_all r g in
+      let p := pre_node k in
+      mkG (fun p' l' => if Nat.eqb p' p then (if Nat.ltb l' h then (next_at l' r, false) else (null, false)) else nxt g1 p' l')
+          (upd1 (unl g1) p (Z.of_nat h)) (upd1 (hgt_of g1) p h) (hgt g1) (cnt g1 + 1)
+  end.
+Definition init (nodes : list (nat * nat)) : G :=
+  let g1 := link_all nodes g_empty in
+  mkG (fun p' l' => if Nat.eqb p' head then (next_at l' nodes, false) else nxt g1 p' l') (unl g1) (hgt_of g1) (hgt g1) (cnt g1).
+
+Definition init_cfg (fuel : nat) (nodes : list (nat * nat)) (ths : list (list op)) : Conc.config G V ev :=
+  Conc.Cfg (init nodes) (map (fun to => thread_prog fuel (fst to) (snd to)) (combine (seq 0 (List.length ths)) ths)) [].
+
+Definition decode_op (o : list Z) : option op :=
+  match o with
+  | c :: r =>
+      if c =? 1 then match r with k :: h :: _ => Some (OIns (Z.to_nat k) (S (Nat.min (Z.to_nat h) 2))) | [k] => Some (OIns (Z.to_nat k) 1) | _ => None end
+      else if c =? 6 then match r with k :: _ => Some (OErase (Z.to_nat k)) | _ => None end
+      else if c =? 10 then match r with k :: _ => Some (OContains (Z.to_nat k)) | _ => None end
+      else if c =? 13 then Some OExtMin
+      else if c =? 14 then Some OExtMax
+      else None
+  | [] => None
+  end.
+Fixpoint decode_ops (os : list (list Z)) : list op :=
+  match os with
+  | [] => []
+  | o :: r => match decode_op o with Some x => x :: decode_ops r | None => decode_ops r end
+  end.
+
+(** cfg = [prefill mask over keys 0..3; h0..h3 (height - 1)] *)
+Definition prefill_nodes (cfg : list Z) : list (nat * nat) :=
+  let mask := Z.to_nat (nth 0 cfg 0) in
+  filter (fun kh => Nat.testbit mask (fst kh))
+    (map (fun k => (k, S (Nat.min (Z.to_nat (nth (S k) cfg 0)) 2))) (seq 0 4)).
+
+Definition run_case (cfg : list Z) (ths : list (list (list Z))) (sched : list nat) (fuel : nat)
+  : list (nat * ev) * bool :=
+  let r := Conc.run fuel 0 sched (init_cfg 60 (prefill_nodes cfg) (map decode_ops ths)) in
+  (Conc.trace (fst r), snd r).
